@@ -30,7 +30,7 @@ ASSUMPTIONS = [
     "the completed configuration compared with cfg/config.json",
 ]
 GATES = {
-    "nan_invalid_disparity": 1, "infinite_invalid_disparity": 1, "minus_infinity_invalid_disparity": 1, "two_or_more_bands": 1, "grids": 1, "georeferenced_input": 1, "validation_present": 2,
+    "nan_invalid_disparity": 1, "validation_step_with_a_suffixed_name_only": 1, "infinite_invalid_disparity": 1, "minus_infinity_invalid_disparity": 1, "two_or_more_bands": 1, "grids": 1, "georeferenced_input": 1, "validation_present": 2,
     "validation_absent": 2, "replayed_configurations": 5, "subprocess_runs": 1, "rasters_compared": 20, "right_input_with_its_own_georeferencing": 1,
     "save_results_on_synthetic_products": 20, "product_heights_around_128_256_512": 5,
 }
@@ -105,6 +105,10 @@ def build_config(rng, d, directed=False, tall=0):
         left["disp"] = [a, a + int(rng.integers(1, 5))]
     keys, params, info = pipes.random_pipeline(rng, rows, cols, validation=validation, max_post=3, allow_mfi=False,
                                                allow_cbca=(nb == 1), subpix_choices=(1, 2))
+    sfx_kind = [None, None, "validation-only", "all"][int(rng.integers(0, 4))] if not directed else "validation-only"
+    if sfx_kind:
+        keys, params = pipes.suffix_bare_steps(keys, params, {"validation"} if sfx_kind == "validation-only" else set(keys),
+                                               ["cc", "1", "v1.5", "last step"][int(rng.integers(0, 4))])
     inv = [-9999, "NaN", 0.5, "-inf", "inf", -12345.5][int(rng.integers(0, 6))]
     if directed:
         inv = "-inf"
@@ -117,7 +121,8 @@ def build_config(rng, d, directed=False, tall=0):
     user = {"input": {"left": left, "right": right}, "pipeline": pipe}
     n_conf = sum(1 for k in keys if pipes.kind_of(k) == "cost_volume_confidence")
     desc = {"pipeline": keys, "shape": [rows, cols], "bands": nb, "georef": geo, "grid": use_grid, "validation": validation,
-            "invalid_disparity": inv, "n_conf_steps": n_conf, "right_georef_differs": bool(shifted)}
+            "invalid_disparity": inv, "n_conf_steps": n_conf, "right_georef_differs": bool(shifted),
+            "suffixed_validation_only": bool(validation and "validation" not in keys)}
     return user, desc
 
 
@@ -264,6 +269,7 @@ def run_case(case, ctx):
     _, _, in_prof_r = rasters.read_all(user["input"]["right"]["img"])
     ctx.gate("right_input_with_its_own_georeferencing", int(desc["right_georef_differs"] and desc["validation"]))
     ctx.gate("nan_invalid_disparity", int(desc["invalid_disparity"] == "NaN"))
+    ctx.gate("validation_step_with_a_suffixed_name_only", int(desc["suffixed_validation_only"]))
     ctx.gate("infinite_invalid_disparity", int(desc["invalid_disparity"] in ("inf", "-inf")))
     ctx.gate("minus_infinity_invalid_disparity", int(desc["invalid_disparity"] == "-inf"))
     ctx.gate("grids", int(desc["grid"]))
